@@ -1,6 +1,8 @@
 // C14: static_string<N> against a std::string clipped to N; also the main TU of the unit.
 #include <cassert> // before vf.h: vf.h defines __assert_fail and must see the libc declaration first
+#ifndef C14_SS_AS_HEADER // bnd_str.cpp includes this file for the SSHist templates only
 #define VF_MAIN
+#endif
 #include "c14.h"
 
 namespace c14
@@ -106,6 +108,27 @@ namespace c14
             if (!h.canaries_intact())
                 bad("bounds", "canary", "c_str() wrote next to the string object (N=%zu)", N);
             VF_OK("string: size, room, c_str, begin..end == reference clipped to N");
+        }
+        // many push_back calls with an O(1) size check per step and one full comparison at the end
+        void bulk_push(size_t count)
+        {
+            op = "fill(push_back)";
+            vf::cls((flav() + ":" + op).c_str());
+            char buf[96];
+            snprintf(buf, sizeof buf, "%sfill x%zu[n=%zu]", trace.empty() ? "" : " ; ", count, m.size());
+            trace += buf;
+            if (vf::verbose())
+                printf("  op %zu x push_back   N=%zu size=%zu\n", count, N, m.size());
+            for (size_t i = 0; i < count; i++)
+            {
+                char c = "ab,cde,,f"[(i + m.size()) % 9];
+                s->push_back(c);
+                if (m.size() < N)
+                    m += c;
+                if (s->size() != m.size())
+                    bad("seq", "size", "size()=%zu after push_back #%zu, reference (clipped to N=%zu) has %zu", (size_t)s->size(), i + 1, N, m.size());
+            }
+            verify(s, m);
         }
         void replace(H &w)
         {
@@ -423,6 +446,7 @@ namespace c14
         }
     }
 } // namespace c14
+#ifndef C14_SS_AS_HEADER
 VF_SUITE(string_ctor_lengths, (c14::StrOverN<c14::SSCtor>::count), (c14::StrOverN<c14::SSCtor>::run))
 VF_SUITE(string_enumerate, (c14::StrOverN<c14::SSEnum>::count), (c14::StrOverN<c14::SSEnum>::run))
 VF_SUITE(string_random, c14::ss_rand_count, c14::ss_rand_run)
@@ -445,7 +469,10 @@ extern "C" void vf_setup()
         vf::require(c);
     if (c14::has_range_ctor<SV, int>)
         vf::require("range constructor driven by a single-pass input iterator");
+    vf::require("boundary capacity: filled to exactly N");
+    vf::require("string boundary capacity: filled to exactly N");
     if (c14::has_split<SS>)
         vf::require("string: split<V,S> keeps the first V tokens, each clipped to S");
     (void)sizeof(SV);
 }
+#endif // C14_SS_AS_HEADER
